@@ -38,7 +38,7 @@ _LINE_ENDS = {"LF": "\n", "CR": "\r", "CRLF": "\r\n", "Any": os.linesep, "None":
 
 @st.composite
 def cases(draw):
-    spec = draw(gen_tables.cid_specs(kinds=("delimited", "delimited-de", "fixed"), max_header=1))
+    spec = draw(gen_tables.cid_specs(kinds=("delimited", "delimited-de", "fixed"), max_header=2))
     fmt = spec["fmt"]
     if fmt["format"] == "fixed":
         fmt["line_delimiter"] = draw(st.sampled_from(["LF", "CR", "CRLF", "Any", "None"]))
